@@ -8,7 +8,7 @@ import re
 import subprocess
 
 from pipelines import pipeline, spec_must_hold, cat_files, write_lines, B1
-from vlib import Infra, CORES
+from vlib import Infra, LibraryPanic, CORES
 import pipe_epoch
 
 TECH = ("TLA+ model checking (TLC) of the registry protocol over all interleavings + TLC schedules forced on real goroutines and "
@@ -135,6 +135,17 @@ def c16(ctx, replay):
                               "C16 explored " + mine[0], {"kind": "explored", "failure": {"scenario": case.get("scenario"), "order": case.get("prefix"), "clauses": mine}})
     if replay is not None and not any(v.get("replay", {}).get("kind") in ("lockset", "race", "epochs") for v in replay.get("violations", [])):
         return
+    try:
+        stages_on_free_running_epochs(ctx, replay, thorough)
+    except LibraryPanic as e:
+        # a reproduction goroutine of the parallel executor panicked (the process cannot survive that): the executor did not
+        # preserve the population guarantees on a population the harness evolved with it
+        ctx.violation("the parallel executor's reproduction goroutine panicked while evolving an ordinary population (vh %s): %s"
+                      % (" ".join(e.cmd_args[:1]), e.excerpt[:700]), "C16 goroutine panic",
+                      {"kind": "epochs", "failure": {"args": e.cmd_args, "panic": e.excerpt}})
+
+
+def stages_on_free_running_epochs(ctx, replay, thorough):
     # ---------------------------------------------------------------- (ii) lock-set on real accesses
     acc = ctx.path("access.ndjson")
     rep_file = ctx.path("access.report.json")
